@@ -7,8 +7,6 @@ import BlueskyVerif.Lemmas.C26List
 namespace BlueskyVerif.Pure.Snake
 
 
-def lens (axes : List (Nat × Bool)) : List Nat := axes.map (·.1)
-
 theorem prod_pos {Ls : List Nat} (h : ∀ x ∈ Ls, 0 < x) : 0 < prod Ls := by
   induction Ls with
   | nil => simp [prod]
@@ -289,5 +287,104 @@ theorem idxs_take (axes : List (Nat × Bool)) (i p : Nat) :
   · rw [List.take_of_length_le (by rw [length_idxs]; exact hi), List.take_of_length_le hi,
       List.drop_eq_nil_of_le hi]
     simp [prod]
+
+
+theorem getElem?_idxs (axes : List (Nat × Bool)) (i : Nat) (L : Nat) (s : Bool) (p : Nat)
+    (h : axes[i]? = some (L, s)) :
+    (idxs axes p)[i]? = some (idxAt L (prod ((axes.drop (i + 1)).map (·.1))) s p) := by
+  induction axes generalizing i with
+  | nil => simp at h
+  | cons x rest ih =>
+    obtain ⟨L', s'⟩ := x
+    cases i with
+    | zero => simp at h; obtain ⟨rfl, rfl⟩ := h; simp [idxs]
+    | succ i => simp at h; simp [idxs, ih i h]
+
+theorem prod_drop (Ls : List Nat) (i L : Nat) (h : Ls[i]? = some L) :
+    prod (Ls.drop i) = L * prod (Ls.drop (i + 1)) := by
+  induction Ls generalizing i with
+  | nil => simp at h
+  | cons x rest ih =>
+    cases i with
+    | zero => simp at h; subst h; simp [prod]
+    | succ i => simp at h; simpa using ih i h
+
+theorem prod_take_drop (Ls : List Nat) (i : Nat) : prod (Ls.take i) * prod (Ls.drop i) = prod Ls := by
+  rw [← prod_append, List.take_append_drop]
+
+theorem wrapStep_allSnaked (axes : List (Nat × Bool)) (hs : ∀ x ∈ axes, x.2 = true) (t t' : List Nat)
+    (h : WrapStep axes t t') : t' = t := by
+  induction axes generalizing t t' with
+  | nil =>
+    cases t <;> cases t' <;> simp [WrapStep] at h ⊢
+  | cons x rest ih =>
+    obtain ⟨L, s⟩ := x
+    have : s = true := hs (L, s) (by simp)
+    subst this
+    cases t with
+    | nil => simp [WrapStep] at h
+    | cons a t =>
+      cases t' with
+      | nil => simp [WrapStep] at h
+      | cons a' t' =>
+        simp only [WrapStep, if_true] at h
+        rw [h.1, ih (fun y hy => hs y (by simp [hy])) t t' h.2]
+
+theorem oneStep_of_adjStep (axes : List (Nat × Bool)) (hs : ∀ x ∈ axes.drop 1, x.2 = true)
+    (t t' : List Nat) (h : AdjStep axes t t') : OneStep t t' := by
+  induction axes generalizing t t' with
+  | nil => simp [AdjStep] at h
+  | cons x rest ih =>
+    obtain ⟨L, s⟩ := x
+    simp only [List.drop_succ_cons, List.drop_zero] at hs
+    cases t with
+    | nil => simp [AdjStep] at h
+    | cons a t =>
+      cases t' with
+      | nil => simp [AdjStep] at h
+      | cons a' t' =>
+        simp only [AdjStep] at h
+        simp only [OneStep]
+        rcases h with ⟨h1, h2⟩ | ⟨h1, h2⟩
+        · left; exact ⟨h1, wrapStep_allSnaked rest hs t t' h2⟩
+        · right
+          refine ⟨h1, ih ?_ t t' h2⟩
+          intro y hy
+          exact hs y (List.mem_of_mem_drop hy)
+
+theorem slowerAdvances_eq (axes : List (Nat × Bool)) (i p : Nat)
+    (hp : p < prod (axes.map (·.1))) :
+    slowerAdvances axes i p = p / prod ((axes.drop i).map (·.1)) := by
+  have hpos : ∀ x ∈ axes, 0 < x.1 := axes_pos_of_prod_pos (by omega)
+  have hposT : ∀ x ∈ axes.take i, 0 < x.1 := fun x hx => hpos x (List.mem_of_mem_take hx)
+  have hsplit := prod_take_drop (axes.map (·.1)) i
+  rw [← List.map_take, ← List.map_drop] at hsplit
+  generalize hP : prod ((axes.drop i).map (·.1)) = P at *
+  generalize hT : prod ((axes.take i).map (·.1)) = T at *
+  have hP0 : 0 < P := by
+    rcases Nat.eq_zero_or_pos P with h | h
+    · subst h; simp at hsplit; omega
+    · exact h
+  unfold slowerAdvances
+  induction p with
+  | zero => simp
+  | succ p ih =>
+    have ih' := ih (by omega)
+    rw [List.range_succ, List.filter_append, List.length_append, ih', Nat.succ_div]
+    congr 1
+    have hlt : ∀ q, q < T * P → q / P < T := fun q hq => (Nat.div_lt_iff_lt_mul hP0).mpr hq
+    have key : ((idxs axes p).take i != (idxs axes (p + 1)).take i) = decide (P ∣ p + 1) := by
+      rw [idxs_take, idxs_take, hP]
+      by_cases hd : P ∣ p + 1
+      · have h1 : (p + 1) / P = p / P + 1 := by rw [Nat.succ_div, if_pos hd]
+        simp only [hd, decide_true, bne_iff_ne, ne_eq]
+        intro heq
+        have := idxs_inj (axes.take i) hposT _ _ (by
+          rw [hT, Nat.div_eq_of_lt (hlt p (by omega)), Nat.div_eq_of_lt (hlt (p + 1) (by omega))]) heq
+        omega
+      · have h1 : (p + 1) / P = p / P := by rw [Nat.succ_div, if_neg hd]; rfl
+        simp [hd, h1]
+    simp only [List.filter_cons, List.filter_nil, key]
+    by_cases hd : P ∣ p + 1 <;> simp [hd]
 
 end BlueskyVerif.Pure.Snake
